@@ -478,8 +478,8 @@ func c19wrapRLP(rlpb []byte) []byte {
 func TestVerif_C19(t *testing.T) {
 	r := vh.Start(t, "C19", "txcodec")
 	defer r.Finish()
-	r.Rule("every input is decoded through TransactionFromRawBytes and through Transaction.Deserialization at a non-zero source offset; accepted inputs must satisfy ToArray()==consumed bytes, canonical re-encoding of the decoded fields (independent encoder, own RLP) == consumed bytes, Hash()==sha256d(unsigned prefix) / keccak(signed RLP), hash<->unsigned-content bijection over all accepted inputs of the run, size<=MAX_TX_SIZE, no panic. Inputs: 13 base transactions (deploy flag 0/1/3, invoke neo/wasm, 0/1/2 signature sets, multisig, P-256/SM2/Ed25519/Ethereum-type keys, 3 EIP-155) x {every single-byte mutation ^1,^0x40,^0x80,0x00,0xFF,+1 at every offset; every var-int re-encoded in each longer form; every truncation; trailing bytes; signature-set replace/remove/re-sign/reorder/duplicate/16/17 sets; alternative public-key and push encodings in signature scripts; non-canonical RLP renderings of every EIP-155 item; re-signed, high-s, legacy-V, wrong-chain EIP-155 copies}; sizes MAX_TX_SIZE-1/0/+1 for invoke, signature-area overflow and EIP-155; all byte strings <=2 bytes and 3..4-byte strings over a sharp alphabet. distinct = (accepted|rejected, tx kind, family, rejection reason) classes plus mutable-reencode classes")
-	r.Bound("13 bases (45..450 bytes), 6 byte mutations x every offset, var-int widths 3/5/9, all prefixes, sizes 2^20-1..2^20+1; thorough adds all single-bit flips, two-byte mutations anchored at every var-int/type/count position and 4..5-byte sharp strings")
+	r.Rule("every input is decoded through TransactionFromRawBytes and through Transaction.Deserialization at a non-zero source offset; accepted inputs must satisfy ToArray()==consumed bytes, canonical re-encoding of the decoded fields (independent encoder, own RLP) == consumed bytes, Hash()==sha256d(unsigned prefix) / keccak(signed RLP), hash<->unsigned-content bijection over all accepted inputs of the run, size<=MAX_TX_SIZE, no panic. Inputs: 13 base transactions (deploy flag 0/1/3, invoke neo/wasm, 0/1/2 signature sets, multisig, P-256/SM2/Ed25519/Ethereum-type keys, 3 EIP-155) x {every single-byte mutation ^1,^0x40,^0x80,0x00,0xFF,+1 at every offset; every var-int re-encoded in each longer form; every var-uint count/length field (attrs, nsigs, code/deploy-string/script/rlp lengths) set to each value of {0, v-1, v+1, v+k*2^8, v+k*2^16, v+k*2^32 (k=1,2,255; thorough k=1..256,2^16-1,2^16,2^24-1,2^32-1), v+2^31, v+2^63, 0xfc,0xfd,0xfe,0xff,0x100,0xffff,0x10000,2^32-1,2^32,2^63-1,2^63,2^64-1} in the canonical and every longer width, and the 2^8 band also with honestly padded content; every truncation; trailing bytes; signature-set replace/remove/re-sign/reorder/duplicate/16/17 sets; alternative public-key and push encodings in signature scripts; non-canonical RLP renderings of every EIP-155 item; re-signed, high-s, legacy-V, wrong-chain EIP-155 copies}; sizes MAX_TX_SIZE-1/0/+1 for invoke, signature-area overflow and EIP-155; all byte strings <=2 bytes and 3..4-byte strings over a sharp alphabet. distinct = (accepted|rejected, tx kind, family, rejection reason) classes plus mutable-reencode classes")
+	r.Bound("13 bases (45..450 bytes), 6 byte mutations x every offset, var-int widths 3/5/9, 64 var-uint fields x <=26 substituted values x widths 1/3/5/9, all prefixes, sizes 2^20-1..2^20+1; thorough adds all single-bit flips, two-byte mutations anchored at every var-int/type/count position and 4..5-byte sharp strings")
 	r.Assume("signature validity is not observed by the decoder; SM2-keyed signature sets carry well-formed placeholder signatures, P-256/Ed25519/secp256k1 signatures are real and deterministic")
 	c := &c19run{r: r, byHash: map[[32]byte]string{}, byContent: map[string][32]byte{}, descOf: map[string]string{}}
 
@@ -592,6 +592,9 @@ func TestVerif_C19(t *testing.T) {
 			}
 		}
 	}
+
+	// family varband: every var-uint field x value alphabet (zero, neighbours, truncation and sign bands, boundaries)
+	c19bandFamily(c, bases)
 
 	// family trunc / trailing
 	for _, b := range bases {
